@@ -153,12 +153,13 @@ impl PokSignatureProof {
 
     /// Convert a byte sequence into a Signature Proof of Knowledge
     pub fn from_bytes<B: AsRef<[u8]>>(bytes: B) -> Option<Self> {
-        const SIZE: usize = 32 * 3 + 48 * 3;
+        // a_bar, b_bar, t and at least the two responses for a_bar and b_bar
+        const SIZE: usize = 32 * 2 + 48 * 3;
         let buffer = bytes.as_ref();
         if buffer.len() < SIZE {
             return None;
         }
-        if buffer.len() % 32 != 0 {
+        if (buffer.len() - 48 * 3) % 32 != 0 {
             return None;
         }
 
@@ -184,7 +185,8 @@ impl PokSignatureProof {
 
         let mut proof = Vec::new();
         for _ in 0..hid_msg_cnt {
-            let c = Scalar::from_be_bytes(&<[u8; 32]>::try_from(&buffer[offset..end]).unwrap());
+            // to_bytes writes the responses with to_repr, i.e. little-endian
+            let c = Scalar::from_le_bytes(&<[u8; 32]>::try_from(&buffer[offset..end]).unwrap());
             offset = end;
             end = offset + 32;
             if c.is_none().unwrap_u8() == 1 {
